@@ -62,6 +62,11 @@ CHECKS = {
   "Heavy duplication and late verbatim replays (including the connection-creating Initial) and forged variants of genuine datagrams (bit flips, truncation, cross-connection header splice, garbage, altered tags): a datagram already authenticated once changes no frame counter when delivered again, a forged one changes none, counters balance per frame type, a loss-free run with 40 % forged injections ends with the same per-stream outcomes as without, and only the exact issued reset token for the CID in use resets a connection.",
   "forging is sampled (none of the injected variants was accepted), not excluded; plaintext-lane truncation forgeries are excluded because plaintext exposes reset tokens",
   "DESIGN.md section 4 C04"),
+ "C03": ("exploration",
+  "runtime monitoring: hostile-peer workloads (authenticated frame injection hook, transport-parameter rewriting, unauthenticated datagram injection) under panic capture, error-class oracle, quiescence / response-count / retained-memory monitors (counting allocator) and a bystander-connection oracle",
+  "Five workload groups against unmodified victims (server or client; ack-frequency on/off; CID lengths 0/8/20; datagrams on/off; tiny limits), each with a bystander connection on the victim endpoint that must complete undisturbed: 30 kinds of well-understood illegal frames with the close code QUIC prescribes; random / boundary-valued / malformed frame scripts in all three packet-number spaces; floods of ten kinds of state-touching frames with bounded response count and bounded retained memory; TLV-level mutations of transport parameters; structure-aware mutations of genuine datagrams and noise handed to Endpoint::handle in every connection state. Panics anywhere in quinn are caught and attributed by backtrace.",
+  "memory is observed as bytes retained by the case's thread (includes harness bookkeeping, bound leaves room); aborts (not panics) would kill the run; on the plaintext lane stateless-reset tokens are visible to the attacker, so resets are not judged here; an authenticated peer that keeps sending but never acknowledges makes sent-packet tracking grow in proportion to its own traffic - not judged",
+  "DESIGN.md section 4 C03"),
  "C06": ("exploration",
   "runtime monitoring: authenticated hostile frames (injection hook) against a reference model of the limits the victim advertised on the wire + credit monitor against the application-side ledger + buffered-bytes probe",
   "Scripts of 1-8 correctly protected hostile frames probe every limit at limit-1/limit/limit+1 (stream and connection flow control, stream counts, final sizes via FIN and RESET_STREAM, DATAGRAM sizes, CRYPTO offsets) against server and client victims, reading (ordered/unordered/stop) or not, with set_receive_window in between, over a grid of window / stream-count / buffer configurations. The limits are those decoded from the victim's own packets; a reference model predicts accept or the admissible close codes; both the victim's ConnectionLost and the code its peer receives must match; accepted bytes are verified by the reading application and never lie beyond the advertised limit or final size; the reassembly buffers stay within the windows plus quinn's documented slack. In honest worlds every MAX_DATA / MAX_STREAM_DATA on the wire is bounded by what the application had consumed or discarded at that instant plus the window.",
